@@ -82,6 +82,33 @@ def c14(work, tier, seed, replay):
         open(ip, "w").write("\n".join(json.dumps(x) for x in part) + "\n")
         cmds.append(["omni", "-in", ip, "-out", op, "-dir", work.sub("db"), "-seed", str(seed)])
         outs.append(op)
+    # the same schedules on the PRODUCTION BINARY (cmd/omniwitness --db_file --poll_interval; the generated configuration reaches it through the
+    # exported ConfigLogs variable): a restart is a SIGKILL of the process followed by a fresh start on the same file
+    binp = build_prod_binary()
+    durable_jobs = [j_ for j_ in jobs if j_["store"] == "sqlfile"]
+    def fork_then_restart(j_):      # the schedules in which lost state shows: the log forks, then the witness is killed and comes back
+        acts = [e["a"] if e["a"] != "fork" or e["n"] >= 2 else "fork-in-name-only" for e in j_["events"]]     # branch 1 shares its first leaf with the main history
+        return "fork" in acts and "restart" in acts[acts.index("fork"):]
+    with_restart = sorted([j_ for j_ in durable_jobs if any(e["a"] == "restart" for e in j_["events"])], key=lambda j_: not fork_then_restart(j_))
+    rest = [j_ for j_ in durable_jobs if j_ not in with_restart]
+    nprod = 10 if tier == "quick" else 80
+    prod_jobs = [dict(j_, id="p" + j_["id"]) for j_ in (with_restart[:nprod * 3 // 4] + rest)[:nprod]]
+    # always: the log forks for real (sizes >= 2 differ), then the witness is killed and restarted: it must still be on the history it witnessed
+    for j, (types, sg) in enumerate(((["sumdb", "tiles"], "tile"), (["tiles", "tiles"], "mixed"))):
+        prod_jobs.append({"id": "pfork%d" % j, "store": "sqlfile", "sigma": SIGMAS[sg], "types": types, "partial": False,
+                          "events": [{"a": "grow", "l": "l1", "b": 0, "n": 2}, {"a": "fork", "l": "l1", "b": 1, "n": 3}, {"a": "fork", "l": "l2", "b": 1, "n": 2},
+                                     {"a": "restart", "l": "", "b": 0, "n": 0}, {"a": "restart", "l": "", "b": 0, "n": 0}]})
+    pshards = 6 if tier == "quick" else 8
+    for k in range(pshards):
+        part = prod_jobs[k::pshards]
+        if not part:
+            continue
+        ip, op = work.path("omni-prod-%d.jsonl" % k), work.path("omni-prod-%d.ndjson" % k)
+        open(ip, "w").write("\n".join(json.dumps(x) for x in part) + "\n")
+        cmds.append(["omni", "-in", ip, "-out", op, "-dir", work.sub("db"), "-seed", str(seed), "-prod", binp])
+        outs.append(op)
+    rep.cov["production_binary_schedules"] = len(prod_jobs)
+    rep.cov["production_binary_schedules_with_kill_and_restart"] = sum(1 for j_ in prod_jobs if any(e["a"] == "restart" for e in j_["events"]))
     t0 = time.time()
     res = parallel_driver(cmds)
     rep.notes.append("%d driver processes, %.0fs: %s" % (len(cmds), time.time() - t0, res[0].strip()))
@@ -90,7 +117,7 @@ def c14(work, tier, seed, replay):
         for op in outs:
             f.write(open(op).read())
     events = read_ndjson(tp)
-    jobs = jobs + chains
+    jobs = jobs + chains + prod_jobs
     jc = dict(O_BASE, Durable=True, MaxEvents=nev, TraceFile=tp, MaxSize=8)
     jr = tlc(work, "MC_Trace_Omni", cfg_text(spec="TSpec", constants=jc, action_constraints=["Monitor"], postcondition="Done"), name="judge-omni", workers=1, timeout=3600, heap="8g")
     if not jr.ok:
@@ -126,6 +153,7 @@ def c14(work, tier, seed, replay):
     rep.cov["rule"] = ("TLC lists every schedule of %d growth / fork / restart events over two logs (sizes 1..3, one fork) from OmniRun.tla; schedules (all, or a seeded sample) run on the real "
                        "omniwitness.Main (ConfigLogs pointed at a generated configuration, real HTTP listener, real sumdb and tlog-tiles feeders, poll interval 250 ms) against stub SumDB "
                        "(x/mod's reference server) and tlog-tiles servers over generated trees whose sizes cross 255/256/257 and 65535/65536/65537, on in-memory and SQLite storage with restarts; "
+                       "a share of the durable schedules also runs on the production binary (cmd/omniwitness as built from the tree, restart = SIGKILL + start on the same file); "
                        "after each event the served checkpoint of every log is observed; judged by Trace_Omni (catches up with an honest log, stops at a fork, stays on the witnessed history, cosigned); "
                        "distinct = distinct (schedule, store, embedding, feeder types)" % nev)
     rep.cov.setdefault("exhaustive", True)
